@@ -8,6 +8,7 @@ import (
 	"golang.org/x/tools/go/ssa"
 
 	"verif/lint/internal/load"
+	"verif/lint/internal/paths"
 )
 
 // iteratorProtocol (C09.P7): a push iterator (func(yield func(...) bool)) must not call yield again once
@@ -160,6 +161,73 @@ func iteratorProtocol(x *Ctx, fns []*ssa.Function) {
 		}
 		if n > 0 {
 			x.C.Obl("C09.P7", "yield:"+load.ShortName(f), x.pos(f), "no call of yield is reachable after yield answered false (or after an answer that was dropped)", bad == "", dedupLines(bad))
+		}
+	}
+}
+
+// nilCursors (C09.P3): a variable of interface type that the function itself sets to nil (the selector's cursor
+// after an optional segment that found nothing) may be nil wherever its value is not known: every method call on
+// it whose receiver the path cannot trace to a stored value must be on a path that knows it to be non-nil.
+func nilCursors(x *Ctx, fns []*ssa.Function) {
+	for _, f := range fns {
+		if len(f.Blocks) == 0 {
+			continue
+		}
+		var cells []*ssa.Alloc
+		for _, b := range f.Blocks {
+			for _, in := range b.Instrs {
+				st, ok := in.(*ssa.Store)
+				if !ok {
+					continue
+				}
+				a, isA := st.Addr.(*ssa.Alloc)
+				c, isC := st.Val.(*ssa.Const)
+				if !isA || !isC || !c.IsNil() {
+					continue
+				}
+				if _, isIface := a.Type().Underlying().(*types.Pointer).Elem().Underlying().(*types.Interface); !isIface {
+					continue
+				}
+				dup := false
+				for _, o := range cells {
+					dup = dup || o == a
+				}
+				if !dup {
+					cells = append(cells, a)
+				}
+			}
+		}
+		if len(cells) == 0 {
+			continue
+		}
+		ps := x.pathsQuiet(f)
+		for _, a := range cells {
+			bad, n := "", 0
+			for _, p := range ps {
+				p.InstrsIn(func(in ssa.Instruction, c *paths.Ctx) {
+					call, ok := in.(ssa.CallInstruction)
+					if !ok || !call.Common().IsInvoke() {
+						return
+					}
+					rt := c.Term(call.Common().Value)
+					if rt == nil || rt.Op != "load" || len(rt.Args) != 1 || rt.Args[0].Op != "alloc" || rt.Args[0].Val != ssa.Value(a) {
+						return
+					}
+					n++
+					known := false
+					for _, fc := range p.Facts {
+						if xx := paths.NilCheckOf(fc.Atom); xx != nil && xx.String() == rt.String() && !fc.Pol {
+							known = true
+						}
+					}
+					if !known {
+						bad += fmt.Sprintf("%s: %s is called on %s, which the function sets to nil elsewhere, on a path that does not know it to be non-nil\n", x.P.Pos(in.Pos()), call.Common().Method.Name(), a.Comment)
+					}
+				})
+			}
+			if n > 0 {
+				x.C.Obl("C09.P3", "nil-cursor:"+load.ShortName(f)+":"+a.Comment, x.P.Pos(a.Pos()), "a method is called on the variable only where it is known to be non-nil", bad == "", dedupLines(bad))
+			}
 		}
 	}
 }
